@@ -26,7 +26,10 @@ def make(rng, display):
         items = []
         for _ in range(rng.randint(1, 4)):
             r = rng.random()
-            if r < 0.45:
+            if r < 0.12:
+                # a detached flow inside the segment: its extraction issues a hard language token for the current language
+                items.append(('f', _word(rng)))
+            elif r < 0.45:
                 items.append(('w', _word(rng)))
             elif display and r < 0.8:
                 items.append(('d', rng.choice(['a = b', 'x + y = z.', 'a &= b \\\\ c &= d,', 'f(x)'])))
@@ -43,6 +46,8 @@ def render(doc, keep=None):
         for (t, x) in items:
             if t == 'w':
                 body.append(x)
+            elif t == 'f':
+                body.append('Qfn\\footnote{' + x + '}')
             elif keep is not None and l != keep:
                 body.append('Qzz')
             elif t == 'i':
@@ -74,9 +79,12 @@ def sequences(res, doc):
         inl, dsp = placeholders(code)
         alts = sorted(set(inl + dsp), key=len, reverse=True)
         rx = re.compile('|'.join(re.escape(a) for a in alts))
-        s = []
+        # (neither the parts of one language nor the pieces joined into one part are in source order: order the
+        #  placeholders by the position they are mapped to)
+        occ = []
         for (t, p) in parts:
-            s += rx.findall(t)
+            occ += [(p[mm.start()], mm.group(0)) for mm in rx.finditer(t)]
+        s = [ph for _, ph in sorted(occ, key=lambda e: e[0])]
         seqs[code] = s
     return seqs
 
@@ -86,10 +94,27 @@ def cases_of(doc):
     per = {l: dict(base, src=render(doc, keep=l)) for l in LANGS}
     return full, per
 
+def judge_direct(doc, rfull):
+    """inline formulas only: the k-th formula standing in text of a language receives entry k mod n (k = 1, 2, ...) of that language's
+    inline collection (the document starts with fresh collections)"""
+    sf = sequences(rfull, doc)
+    if sf is None or doc['display']:
+        return []
+    for l in LANGS:
+        k = sum(1 for (ll, how, items) in doc['segs'] if ll == l for (t, x) in items if t == 'i')
+        inl = placeholders(l)[0]
+        want = [inl[(i + 1) % len(inl)] for i in range(k)]      # the collection is rotated before use
+        if sf.get(l, []) != want:
+            return ['multi-language: the %d inline formulas in %s text must be rendered as %r in turn, got %r' % (k, l, want, sf.get(l, []))]
+    return []
+
 def judge(doc, rfull, rper):
     sf = sequences(rfull, doc)
     if sf is None:
         return []
+    f = judge_direct(doc, rfull)
+    if f:
+        return f
     for l in LANGS:
         sl = sequences(rper[l], doc)
         if sl is None:
